@@ -4,7 +4,6 @@ CONSTANTS
   MaxItems = 100
   Shapes = {101}
 CONSTRAINT Report
-INVARIANT RunsOnce
-INVARIANT PerThreadOrder
 INVARIANT Causal
+INVARIANT NoLostWakeup
 CHECK_DEADLOCK FALSE
